@@ -143,6 +143,31 @@ PROPS = {
                 "expected sub-sizes independently and the snapshot carries the real ones) but not yet proved over a float model",
         assumptions=["quota and ghost capacity are read from the real cache through the verif-hooks accessor and compared with floor(size*ratio) computed by the harness"],
     ),
+    "C09": dict(
+        level_text="Coq theorems over the AdaptiveCache model, for every reachable state (C01 invariant, which contains 0 <= p <= size, by induction over histories) and every size >= 1: a second access moves a recent entry to the front of the frequent list; a put hitting the recent ghost list sets p to min(size, p + max(1, |B2|/|B1|)), one hitting the frequent ghost list to p - max(1, |B1|/|B2|) floored at 0, either revives the key into the frequent list; replace takes its victim from the recent list iff it is non-empty and longer than p (or equal to p on a frequent-ghost hit), else from the frequent list, falling back to the non-empty one, and moves exactly that entry to the front of the matching ghost list; a full cache always makes room before admitting; a new key enters the recent list and is reported Put. Exact list equations, tied to /repo by differential execution over all four lists and p.",
+        props_files=["C09"],
+        theorems={"C09": ["C09_reachable", "C09_replace", "C09_promotion_put", "C09_promotion_get",
+                          "C09_frequent_hit_put", "C09_frequent_hit_get", "C09_get_miss", "C09_recent_ghost_hit",
+                          "C09_frequent_ghost_hit", "C09_new_key"]},
+        slices=dict(quick=[dict(name="arc", slice="arc", args=["--n", 6000, "--len", 150], shards=12)],
+                    thorough=[dict(name="arc", slice="arc", args=["--n", 120000, "--len", 400], shards=16)]),
+        corpus=["arc"],
+        monitors=["mon_c09", "mon_c01"],
+        assumptions=["the four lists and p are read through the verif-hooks accessor / partition()"],
+    ),
+    "C10": dict(
+        level_text="Coq theorems over the WTinyLFUCache model (window LRU, bit-level TinyLFU, segmented main cache), for every reachable state and every estimator state (hence every sketch seed and KeyHasher): a new key enters the window and the window's LRU becomes the candidate; the candidate is admitted without consulting the estimator while the main cache has room; when it is full the candidate is handed back as Evicted iff estimate(candidate) < estimate(least-recent probationary entry), otherwise it replaces that entry which is handed back; every get/get_mut, hit or miss, performs exactly try_reset + increment of the key's hash; purge clears the estimator; a put on a window key moves it to the front of protected, demoting protected's LRU into the window when full. Tied to /repo by differential execution comparing all three lists and the full estimator state after every call.",
+        props_files=["C10"],
+        theorems={"C10": ["C10_reachable", "C10_estimate_total", "C10_new_key_enters_window", "C10_admission_free",
+                          "C10_admission_filter", "C10_get_records_access", "C10_purge_clears_estimator",
+                          "C10_window_hit_moves_to_protected", "C10_main_hit_put"]},
+        slices=dict(quick=[dict(name="wtiny", slice="wtiny", args=["--n", 3000, "--len", 150], shards=12)],
+                    thorough=[dict(name="wtiny", slice="wtiny", args=["--n", 60000, "--len", 400], shards=16)]),
+        corpus=["wtiny"],
+        monitors=["mon_c10", "mon_c01"],
+        assumptions=["sketch seeds and Bloom geometry are read from the real estimator through the verif-hooks accessor and validated (bloom_geometry_ok)",
+                     "the KeyHashers installed by the harness (identity, multiplicative, constant) are the ones modelled by key_hash"],
+    ),
     "C13": dict(
         level_text="Coq theorems: in the models of all five caches every read-only call (peek, peek_mut without write, contains, len, cap, is_empty, peek_lru/peek_mru variants, get_mru, non-writing iterator scripts, per-segment accessors, partition(), Debug) returns the identical state - every list order, value, ARC's p and the W-TinyLFU estimator - and inserting any list of such calls at any position of any history changes neither the final state nor any later result (generic insertion theorem). Tied to /repo by differential execution comparing the full snapshot (all lists, p, estimator bytes) after every call.",
         props_files=["C13"],
